@@ -3,7 +3,11 @@
 Scenario lines (the Lean model `lean/DesperModel/Tree.lean` reads the same text):
 
     newmap m<k>                          m<k> = ResourceMap()
-    newhandle h<k> <valkind>             h<k> = a Handle whose load() counts and returns <valkind>
+    newhandle h<k> <valkind> [fail=i,j]  h<k> = a Handle whose load() counts and returns <valkind>; its i-th, j-th
+                                         invocations raise instead (OSError, KeyError, AttributeError, ... - observed
+                                         as `raised LoadError`, identified by identity of the exception object)
+    op set m<k> :<path> x<j>             m<k>['a/b'] = <neither a ResourceMap nor a Handle>   (must be rejected)
+    op setkey m<k> k<j> h<j>|m<j>        m<k>[<not a str>] = value                              (must be rejected)
     op set m<k> :<path> m<j>|h<j>        m<k]['a/b'] = value          (`:` alone is the empty key)
     op layer m<k>                        m<k>.handles.maps.insert(0, {})   (populator, on conflict)
     op clear m<k> | op hclear h<k> | op call h<k> | op cached h<k> | op stat h<k>
@@ -30,7 +34,7 @@ SENTINEL = object()
 class HarnessError(Exception):
     """a failure of the harness itself (malformed scenario, broken environment assumption): exit 2"""
 
-OPS = {'set', 'layer', 'clear', 'hclear', 'call', 'cached', 'stat', 'getitem', 'get', 'chain', 'bind', 'snap',
+OPS = {'set', 'setkey', 'layer', 'clear', 'hclear', 'call', 'cached', 'stat', 'getitem', 'get', 'chain', 'bind', 'snap',
        'sgetitem', 'sgetattr', 'sget', 'ssetattr', 'sdelattr', 'sdump', 'dump', 'links', 'populate', 'splitext'}
 
 
@@ -103,18 +107,43 @@ ODD_EQ_KINDS = ['evil', 'anyeq', 'twin', 'tag']
 SINGLETON_KINDS = ['none', 'zero', 'empty', 'false', 'tuple', 'zerof', 'bytes']
 
 
-def make_handle(kind):
+LOADER_ERRORS = [OSError, KeyError, AttributeError, RuntimeError, LookupError]
+
+
+def make_handle(kind, fails=(), raised=None):
+    """a Handle whose load() counts its invocations (`tries`), raises on the scripted ones (`fails`, 1-based;
+    the exception objects are recorded in `raised`) and otherwise returns a <kind> value (`loaded`)"""
     make = KINDS[kind]
 
     class CountingHandle(Handle):
         def __init__(self):
             self.loaded = []
+            self.tries = 0
 
         def load(self):
+            self.tries += 1
+            if self.tries in fails:
+                e = LOADER_ERRORS[self.tries % len(LOADER_ERRORS)](f'load #{self.tries} failed')
+                if raised is not None:
+                    raised.append(e)
+                raise e
             v = make()
             self.loaded.append(v)
             return v
     return CountingHandle()
+
+
+def parse_fails(toks):
+    for t in toks:
+        if t.startswith('fail='):
+            return tuple(int(x) for x in t[5:].split(',') if x)
+    return ()
+
+
+# values that are neither a ResourceMap nor a Handle, keys that are not strings
+NON_RESOURCES = [lambda: None, lambda: 7, lambda: 'text', lambda: {}, lambda: object(),
+                 lambda: ResourceMap().get_static_map(), lambda: Handle]
+BAD_KEYS = [None, 5, b'a/b', ('a', 'b')]
 
 
 def comps(tok):
@@ -155,6 +184,7 @@ class Run:
         self.keep = []
         self.nanon = 0
         self.alphabet = alphabet_of(lines)
+        self.loader_excs = []
 
     # ----- naming
     def name_m(self, m):
@@ -189,7 +219,7 @@ class Run:
         try:
             v = f()
         except Exception as e:       # noqa
-            self.obs.append(f'{tag} raised {type(e).__name__}'.strip())
+            self.obs.append(f'{tag} raised {self.exc_name(e)}'.strip())
             return
         self.obs.append(f'{tag} {self.show_item(v)}'.strip())
 
@@ -226,7 +256,7 @@ class Run:
             except AttributeError:
                 continue
             except Exception as e:       # noqa
-                self.obs.append(f'snode {show_path(path + [k])} raised {type(e).__name__}')
+                self.obs.append(f'snode {show_path(path + [k])} raised {self.exc_name(e)}')
                 continue
             if isinstance(v, StaticResourceMap):
                 self.obs.append(f'snode {show_path(path + [k])} smap')
@@ -249,7 +279,7 @@ class Run:
         try:
             self.obs.append(f'{tag} ' + self.chain(start, ks, access, is_node))
         except Exception as e:       # noqa
-            self.obs.append(f'{tag} raised {type(e).__name__}')
+            self.obs.append(f'{tag} raised {self.exc_name(e)}')
 
     # ----- ops
     def op(self, t):
@@ -263,13 +293,26 @@ class Run:
             try:
                 v = self.menv[t[2]].get(t[3][1:])
             except Exception as e:       # noqa
-                self.obs.append(f'bound raised {type(e).__name__}')
+                self.obs.append(f'bound raised {self.exc_name(e)}')
                 return
             if isinstance(v, ResourceMap):
                 self.obs.append('bound ' + self.name_m(v))
                 self.menv[t[1]] = v
             else:
                 self.obs.append('bound none')
+        elif kind == 'setkey':
+            m = self.menv.get(t[1])
+            v = self.hs.get(int(t[3][1:])) if t[3][0] == 'h' else self.menv.get(t[3])
+            if m is None or v is None:
+                self.obs.append('unbound')
+                return
+            self.guard(lambda: m.__setitem__(BAD_KEYS[int(t[2][1:]) % len(BAD_KEYS)], v))
+        elif kind == 'set' and t[3][0] == 'x':
+            m = self.menv.get(t[1])
+            if m is None:
+                self.obs.append('unbound')
+                return
+            self.guard(lambda: m.__setitem__(t[2][1:], NON_RESOURCES[int(t[3][1:]) % len(NON_RESOURCES)]()))
         elif kind == 'set':
             m = self.menv.get(t[1])
             v = self.hs.get(int(t[3][1:])) if t[3][0] == 'h' else self.menv.get(t[3])
@@ -298,7 +341,7 @@ class Run:
             elif kind == 'cached':
                 self.obs.append(f'cached h{k} {self.read_cached(h)}')
             else:
-                self.obs.append(f'stat h{k} loads={len(h.loaded)} cached={self.read_cached(h)}')
+                self.obs.append(f'stat h{k} loads={len(h.loaded)} tries={h.tries} cached={self.read_cached(h)}')
         elif kind == 'links':
             for k, h in self.hs.items():
                 self.obs.append(f'link h{k} parent={self.name_m(h.parent)} key={show_key(h.key)}')
@@ -315,7 +358,7 @@ class Run:
                 self.senv[t[1]] = m.get_static_map()
                 self.obs.append('sres ok')
             except Exception as e:   # noqa  (RecursionError on cyclic trees included)
-                self.obs.append(f'sres raised {type(e).__name__}')
+                self.obs.append(f'sres raised {self.exc_name(e)}')
         elif kind == 'sdump':
             s = self.senv.get(t[1])
             if s is None:
@@ -336,7 +379,7 @@ class Run:
                 try:
                     v = m.get(t[2][1:], SENTINEL)
                 except Exception as e:   # noqa
-                    self.obs.append(f'got raised {type(e).__name__}')
+                    self.obs.append(f'got raised {self.exc_name(e)}')
                     return
                 if v is SENTINEL:
                     self.obs.append('got default')
@@ -368,7 +411,7 @@ class Run:
                             # a Handle has no get(): the chain ends here
                             raise AttributeError(k)
                 except Exception as e:       # noqa
-                    self.obs.append(f'sgot raised {type(e).__name__}')
+                    self.obs.append(f'sgot raised {self.exc_name(e)}')
                     return
                 if isinstance(cur, StaticResourceMap):
                     self.obs.append('sgot smap')
@@ -404,14 +447,21 @@ class Run:
         except (Timeout, HarnessError):
             raise
         except Exception as e:       # noqa
-            self.obs.append(f'op-raised {t[0]} {type(e).__name__}')
+            self.obs.append(f'op-raised {t[0]} {self.exc_name(e)}')
+
+    def exc_name(self, e):
+        """class name of an exception of the implementation; the scripted loader exceptions are recognised
+        by identity and all called LoadError (their class is the loader's business)"""
+        if any(e is x for x in self.loader_excs):
+            return 'LoadError'
+        return type(e).__name__
 
     def read_cached(self, h):
         """the public `cached` property; an exception of the implementation is an observation"""
         try:
             c = h.cached
         except Exception as e:       # noqa
-            return f'raised:{type(e).__name__}'
+            return f'raised:{self.exc_name(e)}'
         return '1' if c is True else '0' if c is False else 'notbool'
 
     def guard(self, f, tag='res'):
@@ -419,7 +469,7 @@ class Run:
             f()
             self.obs.append(f'{tag} ok')
         except Exception as e:       # noqa
-            self.obs.append(f'{tag} raised {type(e).__name__}')
+            self.obs.append(f'{tag} raised {self.exc_name(e)}')
 
     def go(self):
         for ln in self.lines:
@@ -437,7 +487,7 @@ class Run:
             elif t[0] == 'newhandle':
                 k = int(t[1][1:])
                 assert k not in self.hs
-                self.hs[k] = make_handle(t[2])
+                self.hs[k] = make_handle(t[2], parse_fails(t[3:]), self.loader_excs)
             elif t[0] == 'op':
                 self.safe_op(t[1:])
             else:
